@@ -137,11 +137,12 @@ INT_FIELDS = ("a", "b", "c", "x", "y", "z", "w", "s", "p", "q", "t")
 def _override_sets(paths, tier):
     yield {}
     for p in paths:
-        for o in ("err", "err-sub", "boom", "null"):
+        for o in ("err", "err-sub", "err-lib", "boom", "null"):
             yield {p: o}
         last = p.split(".")[-1]
         if last in LIST_FIELDS:
             yield {p: "lazy-err"}
+            yield {p: "lazy-sized-err"}
             yield {p: "as-tuple"}
             yield {p: "as-gen"}
         if last in ABSTRACT_FIELDS:
